@@ -226,7 +226,15 @@ func toggleFavorite(id string, myid int64) (bool, error) {
 	return !isFavorite, nil
 }
 
+// A dashboard id is used as a file name (details/<id>.json): it must be a single path component.
+func isDashboardIdSafeForPath(id string) bool {
+	return id != "" && id != "." && id != ".." && !strings.ContainsAny(id, "/\\\x00")
+}
+
 func getDashboard(id string, myid int64) (map[string]interface{}, error) {
+	if !isDashboardIdSafeForPath(id) {
+		return nil, fmt.Errorf("getDashboard: invalid dashboard id %q", id)
+	}
 
 	dashboardDetailsFname := getDashboardDetailsPath(id)
 
